@@ -3331,18 +3331,24 @@ class QuicConnection:
             self._local_max_streams_bidi,
             self._local_max_streams_uni,
         ):
-            if limit.used * 2 > limit.value:
-                limit.value *= 2
-                self._logger.debug("Local %s raised to %d", limit.name, limit.value)
-            if limit.value != limit.sent:
+            # The limit we enforce is only raised once the frame which
+            # advertises the new value has been written: `start_frame` may
+            # raise `QuicPacketBuilderStop`.
+            value = limit.value
+            if limit.used * 2 > value:
+                value *= 2
+            if value != limit.sent:
                 buf = builder.start_frame(
                     limit.frame_type,
                     capacity=CONNECTION_LIMIT_FRAME_CAPACITY,
                     handler=self._on_connection_limit_delivery,
                     handler_args=(limit,),
                 )
-                buf.push_uint_var(limit.value)
-                limit.sent = limit.value
+                buf.push_uint_var(value)
+                if value != limit.value:
+                    limit.value = value
+                    self._logger.debug("Local %s raised to %d", limit.name, value)
+                limit.sent = value
 
                 # log frame
                 if self._quic_logger is not None:
@@ -3624,17 +3630,13 @@ class QuicConnection:
         locally created unidirectional streams. We skip such streams to avoid
         spurious logging.
         """
-        if (
-            stream.max_stream_data_local
-            and stream.receiver.highest_offset * 2 > stream.max_stream_data_local
-        ):
-            stream.max_stream_data_local *= 2
-            self._logger.debug(
-                "Stream %d local max_stream_data raised to %d",
-                stream.stream_id,
-                stream.max_stream_data_local,
-            )
-        if stream.max_stream_data_local_sent != stream.max_stream_data_local:
+        # The limit we enforce is only raised once the frame which advertises
+        # the new value has been written: `start_frame` may raise
+        # `QuicPacketBuilderStop`.
+        max_stream_data = stream.max_stream_data_local
+        if max_stream_data and stream.receiver.highest_offset * 2 > max_stream_data:
+            max_stream_data *= 2
+        if stream.max_stream_data_local_sent != max_stream_data:
             buf = builder.start_frame(
                 QuicFrameType.MAX_STREAM_DATA,
                 capacity=MAX_STREAM_DATA_FRAME_CAPACITY,
@@ -3642,8 +3644,15 @@ class QuicConnection:
                 handler_args=(stream,),
             )
             buf.push_uint_var(stream.stream_id)
-            buf.push_uint_var(stream.max_stream_data_local)
-            stream.max_stream_data_local_sent = stream.max_stream_data_local
+            buf.push_uint_var(max_stream_data)
+            if max_stream_data != stream.max_stream_data_local:
+                stream.max_stream_data_local = max_stream_data
+                self._logger.debug(
+                    "Stream %d local max_stream_data raised to %d",
+                    stream.stream_id,
+                    max_stream_data,
+                )
+            stream.max_stream_data_local_sent = max_stream_data
 
             # log frame
             if self._quic_logger is not None:
